@@ -20,6 +20,7 @@ SIGNATURES = {
 # limits of the config-default priors (harness/config/priors/vclasses.yaml), filled lazily by default_limits()
 _DEFAULT_LIMITS = {}
 OPS = {"+": "OAdd", "*": "OMul", "/": "ODiv"}
+UNOPS = {"neg": "UNeg", "abs": "UAbs"}     # ModifiedPrior forms with a ModelTree node (NUn)
 
 
 def unhex(s):
@@ -32,7 +33,8 @@ class Gen:
         # opt-in extensions (all off by default; with them off the random stream is unchanged):
         #   tuple_member_kinds  arithmetic priors and int constants as tuple members, int constants as kwargs
         #   underscore_classes  classes CE / LC (constructor-argument names containing "_")
-        #   more_ops            "-", "**", unary neg / abs in arithmetic (no ModelTree node: oracle level only)
+        #   more_ops            "-", unary neg / abs in arithmetic (ModelTree: NUn; a - b is built by the API as
+        #                       a + (-b), see expected_tree) and "**" (no ModelTree semantics: oracle level only)
         #   more_forms          Collection varargs / __setitem__ / raw nested lists, list-valued kwargs (L1), N3 nesting,
         #                       a whole TuplePrior passed as kwarg with members created out of index order
         #   defaults            omitted kwargs / tuple members / nested classes (config-default priors)
@@ -83,10 +85,10 @@ class Gen:
 
     def arith_expr(self, depth=0):
         self.features.add("arith")
-        if self.more_ops and self.rng.random() < 0.35:
+        if self.more_ops and self.rng.random() < 0.5:
             self.features.add("ops2")
-            kind = self.rng.choice(["-", "-", "**", "neg", "abs"])
-            a = self.prior_ref() if (depth >= 1 or self.rng.random() < 0.7) else self.arith_expr(depth + 1)
+            kind = self.rng.choice(["-", "-", "-", "**", "neg", "neg", "abs", "abs"])
+            a = self.prior_ref() if (depth >= 1 or self.rng.random() < 0.6) else self.arith_expr(depth + 1)
             if kind in ("neg", "abs"):
                 return {"t": "unary", "op": kind, "a": a}
             if kind == "**":
@@ -110,7 +112,7 @@ class Gen:
 
     def scalar(self):
         r = self.rng.random()
-        if self.arith and r < 0.12:
+        if self.arith and r < (0.2 if self.more_ops else 0.12):
             return self.arith_expr()
         if self.consts and r < 0.27:
             return self.const()
@@ -379,7 +381,19 @@ def expected_tree(e, names=None):
     if t in ("prior", "const"):
         return dict(e)
     if t == "arith":
-        return {"t": "arith", "op": e["op"], "l": expected_tree(e["l"]), "r": expected_tree(e["r"])}
+        l, r = expected_tree(e["l"]), expected_tree(e["r"])
+        if e["op"] == "-":
+            # ArithmeticMixin.__sub__: a - b = a + (-b); __rsub__ (float - b): (-b) + float; -float is a float
+            def neg(x):
+                if x["t"] == "const":
+                    return {"t": "const", "v": (-unhex(x["v"])).hex()}
+                return {"t": "unary", "op": "neg", "a": x}
+            if l["t"] == "const" and r["t"] == "const":
+                return {"t": "const", "v": (unhex(l["v"]) - unhex(r["v"])).hex()}
+            if l["t"] == "const":
+                return {"t": "arith", "op": "+", "l": neg(r), "r": l}
+            return {"t": "arith", "op": "+", "l": l, "r": neg(r)}
+        return {"t": "arith", "op": e["op"], "l": l, "r": r}
     if t == "unary":
         return {"t": "unary", "op": e["op"], "a": expected_tree(e["a"])}
     if t == "tuple":
@@ -434,6 +448,8 @@ def same_tree(exp, got):
         return unhex(exp["v"]) == unhex(got["v"])
     if t == "arith":
         return exp["op"] == got["op"] and same_tree(exp["l"], got["l"]) and same_tree(exp["r"], got["r"])
+    if t == "unary":
+        return exp["op"] == got["op"] and same_tree(exp["a"], got["a"])
     if t == "tuple":
         return len(exp["members"]) == len(got["members"]) and all(
             a[0] == b[0] and same_tree(a[1], b[1]) for a, b in zip(exp["members"], got["members"]))
@@ -464,6 +480,8 @@ def coq_node(t):
         return "(NTuple %s)" % clist(["(%s, (%s, %s))" % (cstr(n), cnat(member_index(n)), coq_node(c)) for n, c in t["members"]])
     if k == "arith":
         return "(NBin %s %s %s %s %s)" % (OPS[t["op"]], cstr(t["ln"]), cstr(t["rn"]), coq_node(t["l"]), coq_node(t["r"]))
+    if k == "unary":
+        return "(NUn %s %s %s)" % (UNOPS[t["op"]], cstr(t["name"]), coq_node(t["a"]))
     if k == "model":
         ctor = clist([cstr(a) for a, _, _ in SIGNATURES[t["cls"]]])
         return "(NModel %s %s %s)" % (cstr(t["cls"]), ctor, clist([cpair(cstr(n), coq_node(c)) for n, c in t["attrs"]]))
@@ -492,11 +510,18 @@ def coq_path(p):
 def tree_ok_for_model(t):
     """The Coq model covers names without leading underscore and compound names read from the object."""
     k = t["t"]
+
+    def name_ok(nm):
+        return not (nm.startswith("_") or nm in ("id", "cls") or not all(32 <= ord(c) < 127 for c in nm))
     if k == "arith":
-        for nm in (t["ln"], t["rn"]):
-            if nm.startswith("_") or nm in ("id", "cls") or not all(32 <= ord(c) < 127 for c in nm):
-                return False
+        if t["op"] not in OPS or not name_ok(t["ln"]) or not name_ok(t["rn"]):
+            return False             # ** // % : no exact value semantics in the model
         return tree_ok_for_model(t["l"]) and tree_ok_for_model(t["r"])
+    if k == "unary":
+        # Log / Log10 (numpy) have no exact semantics; a unary form of a float is not API-constructible
+        if t["op"] not in UNOPS or not name_ok(t["name"]) or t["a"]["t"] not in ("prior", "arith", "unary"):
+            return False
+        return tree_ok_for_model(t["a"])
     if k == "tuple":
         return all(tree_ok_for_model(c) for _, c in t["members"])
     if k in ("model", "coll"):
